@@ -665,6 +665,7 @@ struct LoadResult {
 // cookie reads (see vfs::Inode::read_script).
 bool g_load_by_name = false; // present the file through Image(filename) instead of Image(FILE*)
 bool g_load_from_pipe = false; // the FILE* cannot seek or tell (a pipe, a socket, standard input)
+size_t g_intr_at = SIZE_MAX, g_intr_piece = 0; // one interrupted read at/after this file offset (vfs::Inode::intr_*)
 
 LoadResult attempt_load_by_name(const string& disk, const std::vector<int>& script);
 
@@ -675,6 +676,8 @@ LoadResult attempt_load(const string& disk, const std::vector<int>& script) {
   ino->kind = vfs::Kind::REG;
   ino->data = disk;
   ino->read_script = script;
+  ino->intr_at_offset = g_intr_at;
+  ino->intr_piece = g_intr_piece;
   res.pic.px.reserve(64 * 64);
   res.what.reserve(256);
   vfs::calls_reset();
@@ -712,6 +715,8 @@ LoadResult attempt_load_by_name(const string& disk, const std::vector<int>& scri
     Quiet q;
     auto ino = vfs::mkfile(path, disk);
     ino->read_script = script;
+    ino->intr_at_offset = g_intr_at;
+    ino->intr_piece = g_intr_piece;
     res.pic.px.reserve(64 * 64);
     res.what.reserve(256);
   }
@@ -742,6 +747,32 @@ LoadResult attempt_load_by_name(const string& disk, const std::vector<int>& scri
         string("Image(filename) left the file open after ") + (res.threw ? "a failed load: " + res.what : "a successful load"));
   }
   return res;
+}
+
+// Offset of the first pixel byte of a file (SIZE_MAX if it cannot be told): BMP says so in its header; in the
+// PNM family the pixel block is the tail of the file and its size follows from the decoded picture.
+size_t pixel_data_start(const string& bytes, const Pic& decoded) {
+  if (bytes.size() >= 14 && bytes[0] == 'B' && bytes[1] == 'M') {
+    uint32_t off;
+    memcpy(&off, bytes.data() + 10, 4);
+    return off < bytes.size() ? off : SIZE_MAX;
+  }
+  if (bytes.size() < 3 || bytes[0] != 'P') return SIZE_MAX;
+  size_t channels;
+  if (bytes[1] == '5') channels = 1;
+  else if (bytes[1] == '6') channels = 3;
+  else if (bytes[1] == '7') {
+    size_t t = bytes.find("TUPLTYPE ");
+    if (t == string::npos) return SIZE_MAX;
+    string name = bytes.substr(t + 9, bytes.find('\n', t) - t - 9);
+    if (name == "GRAYSCALE") channels = 1;
+    else if (name == "GRAYSCALE_ALPHA") channels = 2;
+    else if (name == "RGB") channels = 3;
+    else if (name == "RGB_ALPHA") channels = 4;
+    else return SIZE_MAX;
+  } else return SIZE_MAX;
+  size_t len = decoded.w * decoded.h * channels * (decoded.cw / 8);
+  return (len > 0 && len < bytes.size()) ? bytes.size() - len : SIZE_MAX;
 }
 
 phosg::Image build_image(const Pic& p) {
@@ -966,12 +997,18 @@ static void run() {
       vfs::mkdir_p("/sim/pics");
       string path = string("/sim/pics/out.") + phosg::Image::file_extension_for_format(fmt);
       if (choose(2, "save.by_name.preexisting")) vfs::mkfile(path, string(enc.bytes.size() + 17, 'Z')); // must be replaced, not overwritten in place
+      // the program may have no descriptor 0 (a daemon): the file the library opens is then handed number 0
+      if (choose(4, "save.by_name.fd0") == 3) {
+        vfs::world().hand_out_fd0 = true;
+        VS_PROBE("save_by_filename_gets_descriptor_0");
+      }
       try {
         if (choose(2, "save.by_name.form")) img.save(path, fmt);
         else img.save(path.c_str(), fmt);
       } catch (const std::exception& e) {
         fail("save/threw", fname, string("Image::save(filename) threw on a healthy disk: ") + e.what());
       }
+      vfs::world().hand_out_fd0 = false;
       auto n = vfs::lookup(path);
       if (!n || n->data != enc.bytes) fail("save/file_differs_from_string", string(fname) + "/by_name", "save(filename) left " + std::to_string(n ? n->data.size() : 0) + " bytes on disk that differ from save(Format) (" + std::to_string(enc.bytes.size()) + " bytes)");
       if (vfs::open_fd_count()) fail("save/stream_left_open", fname, "save(filename) did not close the file");
@@ -1090,7 +1127,7 @@ static void run() {
   struct ResetByName {
     ~ResetByName() { g_load_by_name = g_load_from_pipe = false; }
   } reset_by_name;
-  unsigned arm = choose(7, "arm");
+  unsigned arm = choose(9, "arm");
   switch (arm) {
     case 0:
       count("arm.none");
@@ -1210,6 +1247,68 @@ static void run() {
         string d = pic_diff(got, reference, true);
         if (!d.empty()) fail("roundtrip/differs", "second_thread/load", "Image(FILE*) decodes differently when a second thread saves and loads another image in the middle of the call: " + d);
       }
+      break;
+    }
+    case 7: { // a signal interrupts one read inside the pixel data (the header parsers are not the subject: §13)
+      size_t ds = pixel_data_start(enc.bytes, reference);
+      if (ds == SIZE_MAX) {
+        count("arm.none");
+        break;
+      }
+      count("arm.interrupted_read");
+      mark_nontrivial();
+      g_intr_at = ds + choose_range(0, enc.bytes.size() - ds - 1, "intr.at");
+      g_intr_piece = choose(3, "intr.piece.kind") == 0 ? 0 : 1 + choose(200, "intr.piece");
+      ev("interrupted", g_intr_at, g_intr_piece);
+      judge_faulty(enc, reference, enc.bytes, {}, "interrupted_read", (size_t)-1);
+      g_intr_at = SIZE_MAX;
+      g_intr_piece = 0;
+      break;
+    }
+    case 8: { // two files back to back in one stream (a pipe of frames, an archive member followed by another)
+      count("arm.two_in_stream");
+      mark_nontrivial();
+      g_load_by_name = false;
+      Pic second = gen_pic();
+      phosg::Image img2 = build_image(second);
+      Pic expect2 = second;
+      if (!second.alpha)
+        for (auto& q : expect2.px) q.a = mask_for(second.cw);
+      string bytes2 = img2.save(phosg::Image::Format::COLOR_PPM);
+      auto ino = std::make_shared<vfs::Inode>();
+      ino->kind = vfs::Kind::REG;
+      ino->data = enc.bytes + bytes2;
+      std::vector<int> script;
+      for (unsigned i = 0, n = choose(20, "two.chunks"); i < n; i++) script.push_back(1 + choose(4096, "two.chunk.len"));
+      ino->read_script = script;
+      set_context("load/" + enc.kind + "/two_in_stream");
+      FILE* f = vfs::fopen_inode(ino, "r", nullptr, !g_load_from_pipe);
+      Pic got1, got2;
+      string what1, what2;
+      try {
+        phosg::Image a(f);
+        extract(a, got1);
+      } catch (const std::exception& e) {
+        what1 = e.what();
+        if (what1.empty()) what1 = "exception";
+      }
+      if (what1.empty()) {
+        try {
+          phosg::Image b(f);
+          extract(b, got2);
+        } catch (const std::exception& e) {
+          what2 = e.what();
+          if (what2.empty()) what2 = "exception";
+        }
+      }
+      fclose(f);
+      VS_FAULT("second_file_follows_in_stream");
+      if (!what1.empty()) fail("load/valid_file_rejected", short_kind(enc.kind) + "/followed_by_another", "a valid " + enc.kind + " file was rejected when another file follows it in the same stream: " + what1);
+      string d1 = pic_diff(got1, reference, true);
+      if (!d1.empty()) fail("load/followed_by_another_differs", short_kind(enc.kind), "a valid " + enc.kind + " file decodes differently when another file follows it in the same stream: " + d1);
+      if (!what2.empty()) fail("load/next_file_in_stream_rejected", short_kind(enc.kind), "after loading a " + enc.kind + " file the stream is not positioned at its end: the valid PPM that follows was rejected: " + what2);
+      string d2 = pic_diff(got2, expect2, true);
+      if (!d2.empty()) fail("load/next_file_in_stream_differs", short_kind(enc.kind), "after loading a " + enc.kind + " file the stream is not positioned at its end: the PPM that follows decodes wrongly: " + d2);
       break;
     }
     case 5: { // the stream is a pipe: no seeking, no telling, pieces of any size
@@ -1393,6 +1492,6 @@ int main(int argc, char** argv) {
       {"second caller thread", "real thread, released and joined by the simulator inside the first thread's k-th stream call (k from the tape)"},
       {"PNG/BMP/PPM reference decoders and foreign-file encoders", "harness code in engines/sim_image.cc sharing no code with phosg"}};
   e.expected_probes = {"independent_decode_checked", "width_not_multiple_of_4", "grayscale_input", "bmp_bitfields_input", "bmp_top_down_input", "torn_every_prefix_of_a_file", "save_hit_full_disk", "saved_by_filename", "loaded_by_filename", "largest_picture_64x64", "faulty_file_loaded_by_filename", "image_move_assigned", "image_copy_assigned", "save_by_filename_on_full_disk", "faulty_file_loaded_from_pipe"};
-  e.expected_faults = {"truncation", "EIO@read", "short_read", "short_write", "ENOSPC@capacity", "unseekable_stream", "global_locale_groups_digits", "second_thread_inside_io_call"};
+  e.expected_faults = {"truncation", "EIO@read", "short_read", "short_write", "ENOSPC@capacity", "unseekable_stream", "global_locale_groups_digits", "second_thread_inside_io_call", "EINTR@read(transient)", "second_file_follows_in_stream"};
   return driver_main(argc, argv, e);
 }
